@@ -47,9 +47,9 @@ type icaExec struct {
 	a, b  *ibctesting.TestChain
 	base  *ibctesting.Path
 	hist  int
-	cname map[string]string           // real controller channel id -> c<i>
-	hname map[string]string           // real host channel id -> h<i>
-	creal map[string]string           // c<i> -> real
+	cname map[string]string // real controller channel id -> c<i>
+	hname map[string]string // real host channel id -> h<i>
+	creal map[string]string // c<i> -> real
 	hreal map[string]string
 	paths map[string]*ibctesting.Path // by host name h<i> (EndpointA = its controller channel)
 	cpath map[string]*ibctesting.Path // by controller name c<i> (EndpointB empty until TRY)
@@ -102,6 +102,7 @@ func init() {
 	reg(icatypes.ErrAccountAlreadyExist, "account-exists")
 	reg(icatypes.ErrInvalidChannelFlow, "invalid-channel-flow")
 	reg(icatypes.ErrInvalidRoute, "invalid-route")
+	reg(icatypes.ErrInvalidOutgoingData, "invalid-request")
 	reg(icatypes.ErrInterchainAccountNotFound, "account-not-found")
 	reg(icatypes.ErrActiveChannelAlreadySet, "active-already-set")
 	reg(icatypes.ErrActiveChannelNotFound, "active-not-found")
@@ -346,6 +347,8 @@ func (e *icaExec) Do(in M) any {
 		}
 		p := e.newPath()
 		*p.EndpointA = *cp.EndpointA
+		cfg := *cp.EndpointA.ChannelConfig
+		p.EndpointA.ChannelConfig = &cfg
 		p.EndpointA.Counterparty = p.EndpointB
 		p.EndpointB.Counterparty = p.EndpointA
 		p.EndpointB.ChannelConfig.Order = cp.EndpointA.ChannelConfig.Order
@@ -622,7 +625,8 @@ func (e *icaExec) exec(in M) any {
 		cs, code, _ := errorsmod.ABCIInfo(err, false)
 		key := fmt.Sprintf("%s/%d", cs, code)
 		switch {
-		case key == fmt.Sprintf("%s/%d", channeltypes.ErrChannelNotFound.Codespace(), channeltypes.ErrChannelNotFound.ABCICode()):
+		case key == fmt.Sprintf("%s/%d", channeltypes.ErrChannelNotFound.Codespace(), channeltypes.ErrChannelNotFound.ABCICode()),
+			key == fmt.Sprintf("%s/%d", ibcerrors.ErrNotFound.Codespace(), ibcerrors.ErrNotFound.ABCICode()): // getAppMetadata: no such channel
 			cls = "err:channel-not-found"
 		case icaErrTable[key] == "account-not-found":
 			cls = "err:account-not-found"
